@@ -46,7 +46,7 @@ type c12In struct {
 
 func genC12(seed int64, tier string, emit func(run.Case)) {
 	r := gen.New(seed)
-	n := tierN(tier, 3000, 150000)
+	n := tierN(tier, 2400, 120000)
 	for i := 0; i < n; i++ {
 		q := r.Sub(i)
 		emit(run.MkCase(fmt.Sprintf("c%07d", i), "glob", c12In{Prog: gen.GlobProgram(q, tier == "thorough" && q.P(0.5))}))
@@ -181,7 +181,7 @@ func execC12(c run.Case) (res run.Result) {
 		small := gen.LShrink(in.Prog, func(p []*gen.LStmt) bool {
 			w := c12Judge(p, nil)
 			return w.clause == v.clause && (v.clause != "C12.glob-program-rejected" || c12RejClass(w.detail) == c12RejClass(v.detail))
-		}, 150)
+		}, 90)
 		w := c12Judge(small, nil)
 		if w.clause == v.clause {
 			w.detail = "(shrunk) " + w.detail
